@@ -1,6 +1,188 @@
+//! C10 — ProbOrdMinHash2 collision probability equals the order-min-hash similarity (exact enumeration oracle)
+use crate::c11::pairs_of;
 use crate::common::*;
+use crate::gen::*;
+use crate::stat::*;
+use fnv::FnvHasher;
+use probminhash::probminhasher::probordminhash2::ProbOrdMinHash2;
+use rand::Rng as _;
+use serde_json::json;
+use std::collections::HashMap;
+
+/// exact order-min-hash collision probability of two sequences (given as element ids) for a given l.
+/// Ranking of all (element, occurrence) pairs uniformly at random; the l lowest pairs of each sequence, read in
+/// sequence order, must spell the same elements. Memoised recursion over (chosen pairs of A, chosen pairs of B).
+pub fn omh_oracle(a: &[u64], b: &[u64], l: usize) -> Option<f64> {
+    let pa = pairs_of(a);
+    let pb = pairs_of(b);
+    // universe of pairs
+    let mut uni: Vec<(u64, u32)> = pa.iter().chain(pb.iter()).cloned().collect();
+    uni.sort_unstable();
+    uni.dedup();
+    if uni.len() > 62 || a.len() < l || b.len() < l {
+        return None;
+    }
+    let idx = |p: &(u64, u32)| uni.binary_search(p).unwrap();
+    let mut mask_a = 0u64;
+    let mut mask_b = 0u64;
+    // position in the sequence of every universe pair
+    let mut pos_a = vec![usize::MAX; uni.len()];
+    let mut pos_b = vec![usize::MAX; uni.len()];
+    for (i, p) in pa.iter().enumerate() {
+        mask_a |= 1 << idx(p);
+        pos_a[idx(p)] = i;
+    }
+    for (i, p) in pb.iter().enumerate() {
+        mask_b |= 1 << idx(p);
+        pos_b[idx(p)] = i;
+    }
+    struct Ctx<'a> {
+        uni: &'a [(u64, u32)],
+        mask_a: u64,
+        mask_b: u64,
+        pos_a: &'a [usize],
+        pos_b: &'a [usize],
+        l: u32,
+        memo: HashMap<(u64, u64), f64>,
+        budget: usize,
+    }
+    fn spelled(mask: u64, pos: &[usize], uni: &[(u64, u32)]) -> Vec<u64> {
+        let mut v: Vec<(usize, u64)> = (0..uni.len()).filter(|&i| mask >> i & 1 == 1).map(|i| (pos[i], uni[i].0)).collect();
+        v.sort_unstable();
+        v.into_iter().map(|x| x.1).collect()
+    }
+    fn rec(c: &mut Ctx, sa: u64, sb: u64) -> Option<f64> {
+        let fa = sa.count_ones() >= c.l;
+        let fb = sb.count_ones() >= c.l;
+        if fa && fb {
+            return Some(if spelled(sa, c.pos_a, c.uni) == spelled(sb, c.pos_b, c.uni) { 1. } else { 0. });
+        }
+        if let Some(v) = c.memo.get(&(sa, sb)) {
+            return Some(*v);
+        }
+        if c.memo.len() > c.budget {
+            return None;
+        }
+        let mut rel = 0u64;
+        if !fa {
+            rel |= c.mask_a;
+        }
+        if !fb {
+            rel |= c.mask_b;
+        }
+        rel &= !(sa | sb);
+        let n = rel.count_ones();
+        let mut tot = 0.;
+        let mut r = rel;
+        while r != 0 {
+            let i = r.trailing_zeros();
+            r &= r - 1;
+            let bit = 1u64 << i;
+            let nsa = if !fa && c.mask_a & bit != 0 { sa | bit } else { sa };
+            let nsb = if !fb && c.mask_b & bit != 0 { sb | bit } else { sb };
+            tot += rec(c, nsa, nsb)?;
+        }
+        let v = tot / n as f64;
+        c.memo.insert((sa, sb), v);
+        Some(v)
+    }
+    let mut ctx = Ctx { uni: &uni, mask_a, mask_b, pos_a: &pos_a, pos_b: &pos_b, l: l as u32, memo: HashMap::new(), budget: 6_000_000 };
+    rec(&mut ctx, 0, 0)
+}
+
+fn patterns(tier: Tier) -> Vec<(&'static str, Vec<u64>, Vec<u64>)> {
+    let r = |a: std::ops::Range<u64>| a.collect::<Vec<u64>>();
+    let mut v = vec![
+        ("repo_pattern_1", vec![0, 0, 1, 2], vec![0, 1, 1, 2]),
+        ("identical_distinct", r(0..8), r(0..8)),
+        ("identical_repeats", vec![0, 1, 0, 2, 2, 0], vec![0, 1, 0, 2, 2, 0]),
+        ("disjoint", r(0..6), r(10..17)),
+        ("shifted_by_2", r(0..10), r(2..12)),
+        ("substitution", vec![0, 1, 2, 3, 4, 5, 6, 7], vec![0, 1, 2, 9, 4, 5, 6, 7]),
+        ("insertion", vec![0, 1, 2, 3, 4, 5], vec![0, 1, 2, 9, 3, 4, 5]),
+        ("deletion_with_repeats", vec![0, 1, 0, 1, 2, 0, 3], vec![0, 1, 1, 2, 0, 3]),
+        ("common_prefix", vec![0, 1, 2, 3, 10, 11, 12], vec![0, 1, 2, 3, 20, 21]),
+        ("reversed", r(0..7), r(0..7).into_iter().rev().collect()),
+        ("binary_01", vec![0, 0, 0, 0, 0, 0, 0, 0, 0, 1, 1, 1], vec![0, 0, 0, 1, 1, 1, 1, 1, 1, 1, 1, 1]),
+        ("same_multiset_other_order", vec![0, 1, 2, 0, 1, 2], vec![2, 1, 0, 2, 1, 0]),
+        ("one_symbol", vec![5, 5, 5, 5], vec![5, 5, 5, 5, 5, 5]),
+        ("swap_adjacent", vec![0, 1, 2, 3, 4, 5], vec![0, 1, 3, 2, 4, 5]),
+    ];
+    if tier == Tier::Thorough {
+        v.push(("repo_pattern_2", vec![0, 1, 2, 3, 4, 0, 1, 2, 3, 2, 4, 5], vec![0, 1, 2, 6, 4, 0, 7, 1, 2, 3, 2, 4, 5]));
+        v.push(("shifted_by_5_len_16", r(0..16), r(5..21)));
+    }
+    v
+}
 
 pub fn run(rep: &mut Report) {
-    let _ = rep;
-    eprintln!("C10 not implemented yet");
+    quiet_panics();
+    rep.rule = "cell = (pair of sequence patterns, l, m); per trial the symbols get fresh random labels, hash_set(A) and hash_set(B) run on one real instance, statistic = fraction of equal signature positions; target = exact order-min-hash collision probability from a memoised enumeration of the uniform ranking of all (element, occurrence) pairs (harness oracle, no sketching code); staged z-test; probabilities 0 and 1 are exact. Distinct = cells; non-trivial: 0 < target < 1".into();
+    let t1: u64 = rep.tier.pick(6000, 60_000);
+    let pats = patterns(rep.tier);
+    let ms: Vec<u32> = vec![1, 4, 32, 64, 1024];
+    let mut ci = 0u64;
+    for (pname, pa, pb) in &pats {
+        for l in 1..=5usize {
+            if pa.len() < l || pb.len() < l {
+                continue;
+            }
+            let oracle = omh_oracle(pa, pb, l);
+            for &m in &ms {
+                ci += 1;
+                let hsel = mix(&[ci, rep.seed, 0xC10]);
+                if rep.tier == Tier::Quick && hsel % 4 != 0 && !(*pname == "repo_pattern_1" && m == 1 && l == 1) {
+                    continue;
+                }
+                let cell = format!("{}/l={}/m={}", pname, l, m);
+                if !rep.want(&cell) {
+                    continue;
+                }
+                let theta = match oracle {
+                    Some(t) => t,
+                    None => {
+                        rep.inconclusive.push(format!("cell={} oracle state space too large", cell));
+                        continue;
+                    }
+                };
+                let degenerate = theta <= 1e-12 || theta >= 1. - 1e-12;
+                let th = if degenerate { theta.round() } else { theta };
+                let cost = ((pa.len() + pb.len()) as f64) * (m as f64).min(200.) + 100.;
+                let budget: f64 = rep.tier.pick(4e7, 4e9);
+                let tt = ((budget / cost) as u64).clamp(500, t1);
+                let minority = th.min(1. - th);
+                let enough = (tt as f64) * m as f64 * minority >= 400. && (tt as f64) * (m as f64 * minority).min(1.) >= 80.;
+                let targets = vec![Target::new("collision_fraction", th, if degenerate { Kind::Exact } else if enough { Kind::TwoSided } else { Kind::Info })];
+                // symbols used
+                let nsym = pa.iter().chain(pb.iter()).cloned().max().unwrap() as usize + 1;
+                let seed = subseed(rep.seed, "C10", &[ci]);
+                let (rs, trials) = staged(seed, tt, 3, &targets, |rng, out| {
+                    let labels = fresh_ids(rng, nsym, 0);
+                    let a: Vec<u64> = pa.iter().map(|&s| labels[s as usize]).collect();
+                    let b: Vec<u64> = pb.iter().map(|&s| labels[s as usize]).collect();
+                    let mut sk = ProbOrdMinHash2::<FnvHasher>::new(m, l);
+                    // sometimes an unrelated call first, and B before A
+                    let (sa, sb) = if rng.random_range(0..2) == 0 {
+                        let sa = sk.hash_set(&a);
+                        (sa, sk.hash_set(&b))
+                    } else {
+                        let sb = sk.hash_set(&b);
+                        (sk.hash_set(&a), sb)
+                    };
+                    let eq = sa.iter().zip(sb.iter()).filter(|(x, y)| x == y).count();
+                    out[0] = eq as f64 / m as f64;
+                });
+                let case = json!({"pattern": pname, "A": pa, "B": pb, "l": l, "m": m, "oracle_collision_probability": theta});
+                if ci % 23 == 1 || (*pname == "repo_pattern_1" && m == 1 && l == 1) {
+                    rep.sample(case.clone());
+                }
+                if !degenerate {
+                    rep.distinct.insert(mix(&[fnv64(pname.as_bytes()), l as u64, m as u64]));
+                }
+                record_cell(rep, "C10", &cell, &rs, trials * 2, case);
+            }
+        }
+    }
+    collect_ticks(rep);
+    rep.assumptions.push("two signature positions are equal iff the spelled l-tuples are equal (64-bit combined hash; collisions negligible)".into());
 }
